@@ -50,6 +50,14 @@ def evaluate(case):
     if dd:
         return VIOL(dict(sgn, kind='mirror'), 'trough-centred table is not the mirrored peak-centred table of -x: ' + dd)
     nev = 2
+    # the same comparison with return_samples=False on both sides (sample columns dropped from the mirror map)
+    dtn = run_cf(sig, o, return_samples=False)
+    dpn = run_cf(-sig, o2, return_samples=False)
+    nev += 2
+    dd = diff_tables(dtn, mirror(dpn), exact=True) or diff_tables(dtn, dt[[c for c in dt.columns if not c.startswith('sample_')]], exact=True)
+    if dd:
+        return VIOL(dict(sgn, kind='mirror', return_samples=False), 'with return_samples=False the trough-centred table is not the mirror '
+                    'of the peak-centred table of -x (or differs from the table with samples): ' + dd, evals=nev)
     if o['burst_method'] == 'cycles':
         from bycycle.burst import recompute_edges
         thr = S.call_kwargs(o)['threshold_kwargs']
